@@ -25,7 +25,10 @@ def base_docs(tier):
         for sk in sks[:4] if tier == 'quick' else sks:
             slots, base = wrgraph.slots_for(sk)
             docs.append((root, [list(c) for c in base], True))
-            if tier == 'quick' and root != 'utf-8':
+            if tier == 'quick' and (root != 'utf-8' or len(sk) > 13):
+                # (quick: single deviations on the three smaller skeletons,
+                # which contain every section kind at every level; the
+                # largest one contributes its base document with pairs)
                 continue
             for (ci, ai, dom) in slots:
                 for val in dom[1:]:
@@ -214,8 +217,9 @@ def OPT_UNITS(tier):
     not live in assert statements or __debug__ blocks)."""
     us = plan(tier)['units']
     keep = []
-    for kind, n in [('docs', 12), ('examples', 1), ('scale', 20)]:
+    for kind, n in [('docs', 12), ('examples', 1)]:
         keep += [u for u in us if str(u[0]) == kind][:n]
+    keep += [u for u in us if u[0] == 'scale'][-20:]    # (not the huge ones)
     return keep
 
 
